@@ -45,26 +45,28 @@ def mc_cfg(mode, maxlen):
             "  Bases <- C_Bases\n  Reps <- C_Reps\nINVARIANTS Emit Shape BasesWellFormed\n")
 
 
-def run_gen(chk, prop, name, mode, alphabet, maxlen, prefix, bases, conv=True, workers=8):
+def run_gen(chk, prop, name, mode, alphabet, maxlen, prefix, bases, conv=True, workers=8, profiles=("debug",)):
     wd = os.path.join(WORK, f"{prop}-lex")
     os.makedirs(wd, exist_ok=True)
-    mod = f"MCLex_{prop}_{name}"
+    mod = f"MCLex_{prop}_{name}".replace("-", "_")
     raw = os.path.join(wd, f"{name}.raw")
     res = tlc(mod, mc_cfg(mode, maxlen), f"{prop}-mc-{name}", workers=workers, gen_text=mc_text(mod, mode, alphabet, maxlen, prefix, bases),
               raw_out=raw, timeout=3000)
     require_clean(res, f"MCLex[{name}]")
     chk.add_tlc(f"MCLex[{name}]", res, f"mode {mode}: strings generated and classified W/M/U by ScpiLex; Shape invariant")
-    out, _, _ = harness(["lex-replay", "--cases", raw] + ([] if conv else ["--no-conv"]), timeout=3000)
-    os.remove(raw)
     summary = None
     c01, c04 = [], []
-    for line in out.splitlines():
-        v = json.loads(line)
-        if v.get("summary"):
-            summary = v
-            continue
-        for b in v["bad"]:
-            (c01 if b.startswith("C01") else c04).append((b, v))
+    for prof in profiles:
+        out, _, _ = harness(["lex-replay", "--cases", raw] + ([] if conv else ["--no-conv"]), timeout=3000, profile=prof)
+        for line in out.splitlines():
+            v = json.loads(line)
+            if v.get("summary"):
+                summary = v
+                continue
+            v["profile"] = prof
+            for b in v["bad"]:
+                (c01 if b.startswith("C01") else c04).append((b + (" [release build]" if prof == "release" else ""), v))
+    os.remove(raw)
     if not summary:
         raise ToolError("lex-replay produced no summary")
     if summary.get("aborted") != "hang" and summary["cases"] != res.distinct:
@@ -115,7 +117,8 @@ def explore(chk, prop, tier):
     tot = {"cases": 0, "W": 0, "M": 0, "U": 0, "conversions": 0}
     kinds = {}
     for name, mode, alphabet, maxlen, prefix, bases in plan:
-        s, c01, c04 = run_gen(chk, prop, name, mode, alphabet, maxlen, prefix, bases)
+        s, c01, c04 = run_gen(chk, prop, name, mode, alphabet, maxlen, prefix, bases,
+                              profiles=("debug", "release") if (prop == "C01" and th) else ("debug",))
         report(chk, prop, c01, c04)
         for k in tot:
             tot[k] += s.get(k, 0)
